@@ -150,6 +150,12 @@ Definition DPhi_pm (Pk : pkdict) (N tau gamma dtheta dR : Q) : vec :=
 Definition pm_p (Pk : pkdict) (tau gamma : Q) : pmap :=
   concat (map (fun _ => [pX; [gamma / tau; - (gamma / tau)]]) Pk).
 
+(* EBCM_pref_mix: IC = [0] + [1, 0] per key; returned S = N (1-rho) sum Pk theta_k^k, R = N X[0] *)
+Definition pm_IC (Pk : pkdict) : vec := 0 :: concat (map (fun _ => [1; 0]) Pk).
+Definition pm_out_S (Pk : pkdict) (N rho : Q) (X : vec) : Q :=
+  N * ((1 - rho) * dsum Pk (fun k p => p * qpow (vnth (1 + 2 * kidx k (map fst Pk)) X) (Z.of_nat k))).
+Definition pm_out_R (N : Q) (X : vec) : Q := N * vnth 0 X.
+
 (* what EBCM_uniform_introduction is given in the comparison: psi = sum Pk x^k, psi' = sum k Pk x^(k-1) *)
 Definition pk_psi (d : pkdict) (x : Q) : Q := dsum d (fun k p => p * qpow x (Z.of_nat k)).
 Definition pk_psiP (d : pkdict) (x : Q) : Q := dsum d (fun k p => Qnat k * p * qpow x (Z.of_nat k - 1)).
